@@ -549,12 +549,32 @@ func jnRandomScenario(seed int64, id int, thorough bool) jnScenario {
 		sc.Batch = rng.Intn(2) == 0
 		sc.Pace = rng.Intn(4) == 0 && ns <= 30
 	}
+	if !dispatchy && rng.Intn(3) == 0 {
+		// a recorder that is slower than the server: some larger packets one after the other, a packet without
+		// payload, then a burst that queues up behind it (buffers travel reader -> queue -> handler -> pool)
+		sc.Slow = true
+		sc.S2C = nil
+		for i := 0; i < 3+rng.Intn(5); i++ {
+			sc.S2C = append(sc.S2C, jnPk{ID: ids[rng.Intn(len(ids))], N: 200 + rng.Intn(200)})
+		}
+		for r := 0; r < 1+rng.Intn(3); r++ {
+			sc.S2C = append(sc.S2C, jnPk{ID: ids[rng.Intn(len(ids))], N: 0})
+			for i := 0; i < 10+rng.Intn(50); i++ {
+				sc.S2C = append(sc.S2C, jnPk{ID: ids[rng.Intn(len(ids))], N: 100 + rng.Intn(150)})
+			}
+		}
+		return sc
+	}
 	for i := 0; i < ns; i++ {
 		if dispatchy && rng.Intn(5) == 0 {
 			sc.S2C = append(sc.S2C, jnPk{ID: 0})
 			continue
 		}
-		sc.S2C = append(sc.S2C, jnPk{ID: ids[rng.Intn(len(ids))], N: size()})
+		n := size()
+		if !dispatchy && rng.Intn(8) == 0 {
+			n = 0 // a packet that is only its id (the recorder counts invocations, it needs no index in the payload)
+		}
+		sc.S2C = append(sc.S2C, jnPk{ID: ids[rng.Intn(len(ids))], N: n})
 	}
 	return sc
 }
